@@ -41,8 +41,9 @@ CONSTANTS
   TokBlk,     \* consts.RegularBlockSize (16384)
   LenHdr,     \* bytes of a length prefix / of the block terminator in a tokens block (4)
   Finding9,   \* TRUE: as-is blockSize = len(tids)/blocksCount (can be 0); FALSE: max(1, ...)
-  MaxFields, MaxToks, MaxCnt,    \* bounds of the small modes
-  NCases,     \* real: number of pseudo-random shapes after the core list
+  MaxFields, MaxToks,            \* small modes: fields per shape, tokens per field (realall: k tokens per shape)
+  MaxCnt,     \* layout: postings per token; iter: LID universe 1..MaxCnt; ids, ref: documents
+  NCases,     \* real: number of shapes drawn from the seed (env C03_SEED) after the core list
   Tier        \* "quick" | "thorough" (size of palettes in realall / real)
 
 VARIABLE st
@@ -827,21 +828,20 @@ RefShapes(n, d, g, uc, up) ==
             \cup {<<[lo |-> a, hi |-> b, sz |-> 2], [lo |-> c, hi |-> e, sz |-> 3]>> : a \in {1, 2}, b \in {n - 2, n}, c \in 1..n, e \in 1..n}}
 WellFormed(s) == \A j \in 1..Len(s.k) : s.k[j].lo <= s.k[j].hi
 
-\* realall: every combination of the count classes for up to three k tokens, every u class
+\* realall: every combination of the count classes for up to MaxToks k tokens, u-dictionary classes, with / without
+\* a field after the dictionary
+RealAllU(n, w) == SortedSeq({x \in {1, TokBlk \div w, TokBlk \div w + 1, (TokBlk - LenHdr) \div (LenHdr + w) + 1, n} : x >= 1 /\ x <= n})
 RealAllNext ==
   \/ /\ st.lvl = 0
-     /\ \E ni \in 1..Len(NClasses), w \in {6, 8, 12} :
+     /\ \E ni \in 1..Len(NClasses), w \in {6, 12} :
           st' = [lvl |-> 1, s |-> MkShape(NClasses[ni], 1, 3, 12, IF w = 6 THEN WidthFor(NClasses[ni]) ELSE w, <<>>, 0, 0)]
   \/ /\ st.lvl \in 1..MaxToks
-     /\ \E ci \in 1..Len(CntClasses), si \in (IF Thorough THEN {1, 4, 6} ELSE {1, 6}) :
+     /\ \E ci \in 1..Len(CntClasses), si \in (IF st.lvl = 3 THEN {1} ELSE IF Thorough THEN {1, 4, 6} ELSE {1, 6}) :
           /\ CntClasses[ci] <= st.s.n
           /\ st' = [lvl |-> st.lvl + 1, s |-> [st.s EXCEPT !.k = Append(@, KTok(st.s.n, CntClasses[ci], 0, SzClasses[si]))]]
   \/ /\ st.lvl \in 1..4 /\ ~HasU(st.s)
-     /\ \E x \in 1..Len(UCounts(st.s.n, st.s.w)) :
-          /\ UCounts(st.s.n, st.s.w)[x] > 0
-          /\ \E xc \in {0, 1, Cap + 1} :
-               st' = [lvl |-> 5, s |-> [st.s EXCEPT !.uhi = UCounts(st.s.n, st.s.w)[x],
-                                                   !.xlo = IF xc = 0 THEN 1 ELSE 1, !.xhi = Min2(xc, st.s.n)]]
+     /\ \E x \in 1..Len(RealAllU(st.s.n, st.s.w)), xc \in {0, Cap + 1} :
+          st' = [lvl |-> 5, s |-> [st.s EXCEPT !.uhi = RealAllU(st.s.n, st.s.w)[x], !.xlo = 1, !.xhi = Min2(xc, st.s.n)]]
 
 Init ==
   \/ Mode = "layout" /\ st = [F |-> <<>>]
